@@ -71,7 +71,7 @@ def one_run(mode, seed, faults, wcap_seed=None):
     if wcap_seed is not None:
         r_ = random.Random(wcap_seed)
         kw2['wcap'] = lambda n: r_.randint(1, n)
-    sess = env.Session(mode, dev, fault=fault, tick=0.001, default_transport_timeout_s=None, **kw2)
+    sess = env.Session(mode, dev, fault=fault, tick=0.001, default_transport_timeout_s=None, exclusive=True, **kw2)
     sess.core.max_calls = 20000
     tr = []
     kw = dict(read_timeout_s=2.0, transport_timeout_s=1.0)
@@ -150,7 +150,7 @@ def auth_connect_faults(ctx, mode):
         dev = simdev.SimDevice(seed=ctx.seed)
         dev.auth = simdev.AuthPolicy(mode='auth', maxdata=4096, accept_sig=lambda i, s_, t_: False, pubkey='accept')
         dev.shell_scripts[b'shell:id'] = [b'uid=0']
-        sess = env.Session(mode, dev, fault=fault, tick=0.001, default_transport_timeout_s=None)
+        sess = env.Session(mode, dev, fault=fault, tick=0.001, default_transport_timeout_s=None, exclusive=True)
         sess.core.max_calls = 5000
         return dev, sess
     kw = dict(rsa_keys=[K(1), K(2)], auth_timeout_s=None, read_timeout_s=2.0, transport_timeout_s=1.0)
